@@ -85,6 +85,15 @@ def history(rng, exe, length, box, f0=1e9):
                 dead.discard(h)
             elif not o.startswith('fail EINVAL'):
                 return fail('make_unknown of an invalid handle should fail with EINVAL')
+        elif r < 0.33:
+            # correlated with any live parameter; over a 2-point vector (directly or through unknowns) the sigma frequencies may be borrowed
+            other = rng.choice(list(live))
+            o = S.send('cal make_correlated 0 %d 1 N %s' % (other, vlib.d2h(0.05)))
+            h = val(o)
+            if h is None or h in live or h < 3:
+                return fail('make_correlated of a valid handle failed or returned a live handle')
+            live[h] = None
+            dead.discard(h)
         elif r < 0.44:
             h = rng.choice(lv + list(dead) + [0, 1, 2, 57]) if rng.random() < 0.5 or not lv else rng.choice(lv)
             o = S.send('cal delete_parameter 0 %d' % h)
